@@ -2,6 +2,7 @@ package props
 
 import (
 	"fmt"
+	"github.com/vedadiyan/genql"
 	"strings"
 
 	"verif/harness/core"
@@ -21,7 +22,9 @@ type c06case struct {
 	// kind 2 (parenthesised operands with windows of their own): shape 0 (b1 op b2 LIMIT n OFFSET m) op b3,
 	// 1 b1 op (b2 op b3 LIMIT n OFFSET m), 2 (b1 LIMIT n) op (b2 LIMIT m); limit / offset: the inner window
 	shape int
-	lim2  int // shape 2: the second operand's LIMIT; shapes 0/1: LIMIT on the whole union (-1 absent)
+	lim2  int
+	// wrapped: built with the Wrapped option, tables named through root.
+	wrapped bool // shape 2: the second operand's LIMIT; shapes 0/1: LIMIT on the whole union (-1 absent)
 }
 
 type c06 struct {
@@ -86,6 +89,20 @@ func (p *c06) Init(tier string) {
 				p.cases = append(p.cases, c06case{kind: 1, branches: bs, ops: ops, limit: lim, offset: -1})
 			}
 		}
+	}
+	// the Wrapped option: every operand is built from the wrapped document exactly once
+	for _, bs := range [][]int{{0, 2}, {2, 0}, {0, 1, 2}, {3, 0}, {0, 3}} {
+		for m := 0; m < 1<<(len(bs)-1); m++ {
+			var ops []bool
+			for k := 0; k < len(bs)-1; k++ {
+				ops = append(ops, m&(1<<k) != 0)
+			}
+			p.cases = append(p.cases, c06case{kind: 1, branches: bs, ops: ops, limit: -1, offset: -1, wrapped: true})
+		}
+	}
+	for _, l := range []string{"a", "a, b", "*"} {
+		cols := map[string][]string{"a": {"a"}, "a, b": {"a", "b"}, "*": nil}[l]
+		p.cases = append(p.cases, c06case{kind: 0, list: l, cols: cols, limit: -1, offset: -1, wrapped: true})
 	}
 	// parenthesised operands that carry a LIMIT / OFFSET of their own
 	for _, o1 := range []bool{false, true} {
@@ -176,6 +193,14 @@ func (p *c06) Init(tier string) {
 func (p *c06) NumCases() int { return len(p.cases) }
 
 func (p *c06) sqlOf(c *c06case) string {
+	s := p.sqlPlain(c)
+	if c.wrapped {
+		s = strings.NewReplacer(" FROM t", " FROM `root.t`", " FROM u", " FROM `root.u`").Replace(s)
+	}
+	return s
+}
+
+func (p *c06) sqlPlain(c *c06case) string {
 	if c.kind == 0 {
 		q := "SELECT DISTINCT " + c.list + " FROM t"
 		if c.limit >= 0 {
@@ -350,7 +375,11 @@ func (p *c06) RunCase(i int) *core.CaseResult {
 			sig = fmt.Sprintf("C06|union|branches=%d|ops=%s|limit=%v|", len(c.branches), strings.Join(ops, ","), c.limit >= 0)
 		}
 		gq.ReExec = true
-		out := gq.Run(doc, sql)
+		var copts []genql.QueryOption
+		if c.wrapped {
+			copts = append(copts, genql.Wrapped())
+		}
+		out := gq.Run(doc, sql, copts...)
 		gq.ReExec = false
 		r.Execs++
 		cs := map[string]any{"sql": sql, "doc": doc}
@@ -404,7 +433,7 @@ func window(rows []string, limit, offset int) []string {
 
 func (p *c06) Meta() core.Meta {
 	return core.Meta{
-		Rule: "DISTINCT cases: 7 select lists (1-3 columns incl. an object-valued one, *), each also with LIMIT 0..3 / OFFSET absent,0..2 (no ORDER BY: the window applies to the de-duplicated sequence); UNION cases: every chain of 2-3 (thorough 4) branches over 3 branch queries with every mix of UNION / UNION ALL, without and with LIMIT; chains under a WITH clause whose CTE is read by the first, a middle or the last branch; parenthesised operands that carry a LIMIT / OFFSET of their own (left- and right-nested unions with and without a window on the parenthesised operand, windowed single branches); each on every table of <= 3 rows over 10 archetypes (thorough: also 4-5 rows over the first 6) and one table of 41 rows chosen to collide under %v ({a:1}/{a:\"1\"}, {a:\"x b:y\",b:\"q\"}/{a:\"x\",b:\"y b:q\"}); every successfully executed Query object is executed two more times and must return the same rows; non-trivial = a duplicate was actually removed and more than one row remains",
+		Rule: "DISTINCT cases: 7 select lists (1-3 columns incl. an object-valued one, *), each also with LIMIT 0..3 / OFFSET absent,0..2 (no ORDER BY: the window applies to the de-duplicated sequence); UNION cases: every chain of 2-3 (thorough 4) branches over 3 branch queries with every mix of UNION / UNION ALL, without and with LIMIT; a subset also built with the Wrapped option; chains under a WITH clause whose CTE is read by the first, a middle or the last branch; parenthesised operands that carry a LIMIT / OFFSET of their own (left- and right-nested unions with and without a window on the parenthesised operand, windowed single branches); each on every table of <= 3 rows over 10 archetypes (thorough: also 4-5 rows over the first 6) and one table of 41 rows chosen to collide under %v ({a:1}/{a:\"1\"}, {a:\"x b:y\",b:\"q\"}/{a:\"x\",b:\"y b:q\"}); every successfully executed Query object is executed two more times and must return the same rows; non-trivial = a duplicate was actually removed and more than one row remains",
 		Assumptions: []string{
 			"two rows are duplicates iff they have the same keys and type-identical values (the number 1 and the string \"1\" are different values)",
 			"chains associate to the left: (A op1 B) op2 C",
